@@ -230,6 +230,9 @@ EXTRAS = [
     ("det4", HEAD % "" + '<g transform="scale(2,2)" stroke="black" stroke-width="3"><rect id="L" width="3" height="4"/></g></svg>'),
     ("det-6", HEAD % "" + '<g transform="scale(-2,3)" stroke="black"><rect id="L" width="3" height="4" stroke-width="2"/></g></svg>'),
     ("det-quarter", HEAD % "" + '<g transform="matrix(0.5,0,0,0.5,7,7)"><rect id="L" width="3" height="4" stroke="red" stroke-width="8" transform="rotate(30)"/></g></svg>'),
+    ("det-tiny", HEAD % "" + '<g transform="scale(0.00002)" stroke="black" stroke-width="50000"><rect id="L" width="30000" height="40000"/></g></svg>'),
+    ("det-huge", HEAD % "" + '<g transform="scale(40000)" stroke="black" stroke-width="0.00005"><rect id="L" width="0.0003" height="0.0004"/></g></svg>'),
+    ("viewbox-tiny", HEAD % 'width="100" height="100" viewBox="0 0 10000000 10000000"' + '<rect id="L" width="3000000" height="4000000" stroke="red" stroke-width="200000"/></svg>'),
     ("det-shear", HEAD % "" + '<g transform="skewX(30) scale(1,4)"><line id="L" x2="3" y2="4" stroke="red" stroke-width="2"/></g></svg>'),
     ("viewbox-scale", HEAD % 'width="200" height="100" viewBox="0 0 100 50"' + '<rect id="L" width="3" height="4" stroke="red" stroke-width="2"/></svg>'),
     ("viewbox-none-aniso", HEAD % 'width="200" height="100" viewBox="0 0 50 50" preserveAspectRatio="none"' + '<rect id="L" width="3" height="4" stroke="red" stroke-width="2"/></svg>'),
@@ -247,7 +250,7 @@ class Extras(SubCheck):
 
     def __init__(self, svg, tier):
         self.svg = svg
-        self.p = Product(range(len(EXTRAS)), [True, False], [None, "#abcdef"])
+        self.p = Product(range(len(EXTRAS)), [True, False], [None, "#abcdef", "#0000ff80", "rgba(10,20,30,0.25)"])
 
     def size(self):
         return len(self.p)
